@@ -40,11 +40,12 @@ ASSUMPTIONS = [
     "is only a ratio in [0,1] for centred input, which is what every model hands to the decomposer by default",
     "two-sided exact-vs-randomised closeness (1e-6) is asserted only on spectra built with a gap (factor "
     "1e-1..1e-3) right after the last requested mode; without such a gap nothing is promised",
-    "scipy svds(lobpcg) (complex non-exact path) has an absolute residual tolerance: data scale 1e0 is the "
-    "transition zone (errors ~3e-7, no head-room) and is not generated for that back-end; scales <= 1e-1 are "
+    "scipy svds(lobpcg) (complex non-exact path) has an absolute residual tolerance (~1.5e-8 * n on the residual "
+    "of X^H X): with sigma_k/sigma_1 >= 0.4 data scales 1e0 and 1e1 are the transition zone (errors 3e-7 / 2e-8, "
+    "less than 100x head-room) and are not generated for the exact-vs-randomised comparison; scales <= 1e-1 are "
     "generated and judged with the common 1e-6 tolerance (known defect, tags backend=svds, scale_exp)",
     "dask svd_compressed as configured by xeofs (n_power_iter=4, un-normalised 'power' iterator) loses modes with "
-    "sigma_k/sigma_1 below ~eps^(1/9): 0.9 < log10(sigma_1/sigma_k) < 1.6 is the transition zone (errors 1e-9..1e-5) "
+    "sigma_k/sigma_1 below ~eps^(1/9): 0.8 < log10(sigma_1/sigma_k) < 1.6 is the transition zone (errors 1e-9..1e-5) "
     "and is not generated for that back-end; larger dynamic ranges are generated and judged with the common 1e-6 "
     "(known defect, tags backend=svd_compressed, dyn_exp)",
     "integer seeds are drawn from 0..2^32-1 (the domain numpy RandomState / sklearn accept)",
@@ -165,7 +166,7 @@ def _cmp_case(rng, target=None, container=None, shape=None):
     shape = shape or str(rng.choice(["small", "big"]))
     n, p = _shape(rng, shape)
     if container == "cplx":
-        se = int(rng.choice([-6, -3, -2, -1, 1, 2, 3, 6]))
+        se = int(rng.choice([-6, -3, -2, -1, 2, 3, 6]))
         kmax = 4
         dyn = float(rng.uniform(0, 0.4))  # sigma_k / sigma_1 >= 0.4 (svds' absolute tolerance, see ASSUMPTIONS)
     else:
@@ -173,8 +174,8 @@ def _cmp_case(rng, target=None, container=None, shape=None):
         kmax = 8
         dyn = float(rng.uniform(0, 3))
         if container == "dask":
-            # 0.9 .. 1.6 is the transition zone of svd_compressed's un-normalised power iteration
-            dyn = float(rng.uniform(0, 0.9)) if rng.random() < 0.7 else float(rng.uniform(1.6, 3))
+            # 0.8 .. 1.6 is the transition zone of svd_compressed's un-normalised power iteration
+            dyn = float(rng.uniform(0, 0.8)) if rng.random() < 0.7 else float(rng.uniform(1.6, 3))
     return dict(
         kind="cmp",
         target=target,
@@ -262,12 +263,12 @@ def cases(tier, seed):
                 for _ in range(3):
                     out.append(_cmp_case(r(), target, container, shape))
     # the scale sweep that delimits the svds defect
-    for se in (-6, -3, -2, -1, 1, 2, 3, 6):
+    for se in (-6, -3, -2, -1, 2, 3, 4, 6):
         for target in ("Decomposer", "_SVD"):
             c = _cmp_case(r(), target, "cplx", "big")
             c["scale_exp"] = se
             out.append(c)
-    for dyn in (0.5, 0.9, 2.0, 3.0):
+    for dyn in (0.5, 0.8, 2.0, 3.0):
         for target in ("Decomposer", "_SVD"):
             c = _cmp_case(r(), target, "dask", "big")
             c["dyn_exp"] = dyn
@@ -693,7 +694,9 @@ def run_cmp(case, obs):
         sfx = "_dask_lowmodes"  # known round-off loss of dask's un-normalised power iteration
     tg = {"symptom": "randomized_ne_exact", "check": "randomized_vs_exact"}
     obs.close("exact_sv_vs_oracle", full["s"], s_or, 1e-9, scale=s1, tags={"symptom": "exact_ne_oracle"})
-    obs.close("exact_angle_vs_oracle", sin_angle(full["V"], Vo[:, :k]), 0.0, 1e-8, scale=1.0, tags={"symptom": "exact_ne_oracle"})
+    # the oracle diagonalises X^H X, so ITS eigenvectors carry ~eps*(sigma_1/sigma_k)^2: 1e-8 up to a dynamic
+    # range of 1e2, 1e-6 beyond (measured 1e-10 at 1e3)
+    obs.close("exact_angle_vs_oracle", sin_angle(full["V"], Vo[:, :k]), 0.0, 1e-8 if dyn <= 2 else 1e-6, scale=1.0, tags={"symptom": "exact_ne_oracle"})
     obs.close("rand_sv_vs_oracle" + sfx, rnd["s"], s_or, 1e-6, scale=s1, tags=tg)
     obs.close("rand_sv_vs_exact" + sfx, rnd["s"], full["s"], 1e-6, scale=s1, tags=tg)
     obs.close("rand_angle_V_vs_oracle" + sfx, sin_angle(rnd["V"], Vo[:, :k]), 0.0, 1e-6, scale=1.0, tags=tg)
@@ -843,7 +846,7 @@ def run_seed_model(case, obs):
     data = _model_data(case, cls)
     kw = zoo.default_kwargs(cls, n_modes=3, solver=case["solver"], random_state=case["rs"])
     if case["pca"] == "few":
-        kw["n_pca_modes"] = 6
+        kw["n_pca_modes"] = 4  # few enough that svds(lobpcg) really iterates (5k < p) instead of its dense fallback
     res, evs = [], []
     for rep in range(2):
         mon.reset()
